@@ -151,6 +151,10 @@ func genC04(r *Rng, e *Emitter, n int) {
 		} else {
 			e.tally("limits=some-disabled")
 		}
+		if r.chance(1, 12) {
+			b = r.mixedMemberEncoding(c, bo)
+			e.tally("mutation=mixed-member-layout")
+		}
 		c04Run(e, c, lims, b)
 	}
 	// large limits, the top-level count forged up to the limit, one large member really present and the
@@ -230,8 +234,31 @@ func c04Run(e *Emitter, c codec, lims [4]int, b []byte) {
 	}()
 	runtime.ReadMemStats(&after)
 	alloc := after.TotalAlloc - before.TotalAlloc
+	// the same bytes through Read, from a reader that delivers short chunks of odd sizes: one
+	// geometry is decoded however the reader splits the bytes
+	streamDiff := ""
+	if !panicked {
+		func() {
+			defer func() {
+				if recover() != nil {
+					streamDiff = "(stream-differs (panic))"
+				}
+			}()
+			sizes := []int{1 + len(b)%13, 3, 1 + len(b)%7, 4093 + len(b)%11, 2}
+			g3, err3 := c.read(&chunkReader{data: b, sizes: sizes})
+			switch {
+			case (err3 != nil) != (derr != nil):
+				streamDiff = fmt.Sprintf("(stream-differs (errors %v %v))", derr != nil, err3 != nil)
+			case err3 == nil && raw(g3) != raw(g):
+				streamDiff = "(stream-differs " + raw(g3) + ")"
+			}
+		}()
+	}
 	wkbcommon.MaxGeometryElements = [4]int{0, -1, -1, -1}
 	switch {
+	case streamDiff != "":
+		payload = streamDiff
+		e.tally("outcome=stream-differs")
 	case panicked:
 		payload = "(panic)"
 		e.tally("outcome=panic")
@@ -262,4 +289,74 @@ func c04Run(e *Emitter, c codec, lims [4]int, b []byte) {
 		payload = "(ok " + raw(g) + " " + again + ")"
 	}
 	e.emit("C04.dec", input, fmt.Sprintf("(m %d %s)", alloc, payload))
+}
+
+// mixedMemberEncoding is a multi-geometry (or collection) header of one dimensionality followed by
+// complete member encodings of which some have another dimensionality: no encoder writes it, every
+// byte of it is a valid piece of WKB.
+func (r *Rng) mixedMemberEncoding(c codec, bo binary.ByteOrder) []byte {
+	l1 := xyzmLayouts[r.Intn(4)]
+	l2 := xyzmLayouts[r.Intn(4)]
+	for l2.Stride() == l1.Stride() && r.chance(3, 4) {
+		l2 = xyzmLayouts[r.Intn(4)]
+	}
+	kind := r.Intn(4)
+	var outer geom.T
+	member := func(l geom.Layout) geom.T {
+		st := l.Stride()
+		pts := 2 + r.Intn(3)
+		flat := make([]float64, 0, (pts+1)*st)
+		for k := 0; k < pts*st; k++ {
+			flat = append(flat, float64(r.Intn(9)))
+		}
+		switch kind {
+		case 0:
+			return geom.NewPointFlat(l, flat[:st])
+		case 1:
+			return geom.NewLineStringFlat(l, flat)
+		case 2:
+			flat = append(flat, flat[:st]...)
+			return geom.NewPolygonFlat(l, flat, []int{len(flat)})
+		default:
+			return geom.NewLineStringFlat(l, flat)
+		}
+	}
+	switch kind {
+	case 0:
+		outer = geom.NewMultiPoint(l1)
+	case 1:
+		outer = geom.NewMultiLineString(l1)
+	case 2:
+		outer = geom.NewMultiPolygon(l1)
+	default:
+		outer = geom.NewGeometryCollection().MustPush(geom.NewPointFlat(l1, make([]float64, l1.Stride())))
+	}
+	head, err := c.marshal(outer, bo)
+	if err != nil || len(head) < 9 {
+		return []byte{1, 1, 0, 0, 0}
+	}
+	k := 1 + r.Intn(3)
+	var body []byte
+	n := 0
+	if kind == 3 { // the collection keeps its first (l1) member
+		body = append(body, head[9:]...)
+		n = 1
+	}
+	out := append([]byte{}, head[:5]...)
+	for j := 0; j < k; j++ {
+		l := l1
+		if j == k-1 || r.chance(1, 2) {
+			l = l2
+		}
+		mb, err := c.marshal(member(l), bo)
+		if err != nil {
+			continue
+		}
+		body = append(body, mb...)
+		n++
+	}
+	cnt := make([]byte, 4)
+	bo.PutUint32(cnt, uint32(n))
+	out = append(out, cnt...)
+	return append(out, body...)
 }
